@@ -11,7 +11,7 @@ set_option linter.unusedSimpArgs false
 namespace Modbus.ClientResp
 open Modbus Modbus.Client Modbus.Spec
 open Modbus.EncLemmas (decodeBools_eq hi_mk16 lo_mk16 mk16_hi_lo toNat_mk16 toNat_mk32 toNat_mk64
-  u16s_step u32s_step u64s_step)
+  u16s_step u32s_step u64s_step u16s_none_iff u32s_none_iff u64s_none_iff)
 
 /-! ### (A) bit vectors -/
 
@@ -578,5 +578,312 @@ theorem core_view {cfg : Cfg} {op : Op} {c : Core} (h : op.core cfg = some c) : 
   case writeUint32 a v | writeFloat32 a v => exact .mregs _ rfl (u32bytes_length _ _ v)
   case writeUint64 a v | writeFloat64 a v => exact .mregs _ rfl (u64bytes_length _ _ v)
   all_goals exact .regs _ _ rfl rfl (by simp only [items] <;> omega)
+
+theorem view_endianOk {cfg : Cfg} {op : Op} {c : Core} (hv : CoreView cfg op c)
+    (he : cfg.endian ≠ .invalid) : CoreEndianOk c := by
+  cases hv <;> first | exact he | trivial
+
+/-- L1: the function code sent is the one of the spec -/
+theorem view_fc {cfg : Cfg} {op : Op} {c : Core} {fc : Byte} {p : Bytes} (hv : CoreView cfg op c)
+    (hreq : c.request = .ok (fc, p)) : fc = reqFc op := by
+  cases hv with
+  | bits di q hfn hq =>
+    rw [(request_readBools hreq).2]; cases di <;> simp [reqFc, functionCode, hfn]
+  | regs qty rt hfn hrt hq =>
+    obtain ⟨_, h, hfc⟩ := request_readRegs hreq
+    rw [hfc]; rcases h with rfl | rfl <;> simp [reqFc, functionCode, hfn, hrt]
+  | coil a v h => subst h; exact request_writeCoil hreq
+  | coils a vs h => subst h; exact (request_writeCoils hreq).2
+  | reg a v h => subst h; exact request_writeReg hreq
+  | mregs pay hfn hlen => rw [(request_writeRegs hreq).2]; simp [reqFc, functionCode, hfn]
+
+/-- L2: the payload the core call accepts is the payload of the spec -/
+theorem view_pos {cfg : Cfg} {op : Op} {c : Core} {fc : Byte} {p : Bytes} (hv : CoreView cfg op c)
+    (hreq : c.request = .ok (fc, p)) (pl : Bytes) : CorePos c pl ↔ PayloadOk cfg op pl := by
+  cases hv with
+  | bits di q hfn hq => cases di <;> simp only [CorePos, PayloadOk, hfn, reqItems, hq] <;> rfl
+  | regs qty rt hfn hrt hq => simp only [CorePos, PayloadOk, hfn, reqItems, hq]
+  | coil a v h => subst h; rfl
+  | coils a vs h => subst h; rfl
+  | reg a v h => subst h; rfl
+  | mregs pay hfn hlen =>
+    have h1 := (request_writeRegs hreq).1
+    simp only [CorePos, PayloadOk, hfn, reqItems, reqAddr]
+    rw [hlen, u16_half _ (by omega)]
+
+theorem decode_done (cfg : Cfg) (op : Op) : op.decode cfg .done = some .unit := by
+  cases op <;> rfl
+
+theorem bits_ops {cfg : Cfg} {op : Op} (hfn : fn op = .readCoils ∨ fn op = .readDiscreteInputs) :
+    (∀ l, op.decode cfg (.bools l) = some (.bools l)) ∧
+    (∀ res, decodeReply cfg op res = .bools (bitsOf (replyData res) (items op))) ∧
+    requestedCount op = items op := by
+  cases op <;> simp [fn] at hfn <;> exact ⟨fun _ => rfl, fun _ => rfl, rfl⟩
+
+theorem write_ops {cfg : Cfg} {op : Op}
+    (hfn : fn op = .writeSingleCoil ∨ fn op = .writeSingleRegister ∨ fn op = .writeMultipleCoils
+      ∨ fn op = .writeMultipleRegisters) :
+    (∀ res, decodeReply cfg op res = .unit) ∧ requestedCount op = 0 := by
+  cases op <;> simp [fn] at hfn <;> exact ⟨fun _ => rfl, rfl⟩
+
+theorem take_odd_even (q : U16) (v : Bytes) (hv : v.length = 2 * regsForBytes q.toNat) :
+    (if q % 2 = 1 then v.take (v.length - 1) else v) = v.take q.toNat := by
+  unfold regsForBytes at hv
+  split
+  · next h => rw [odd_iff] at h; congr 1; omega
+  · next h => rw [odd_iff] at h; rw [List.take_of_length_le (by omega)]
+
+theorem regs_ops {cfg : Cfg} {op : Op} (hfn : fn op = .readRegisters)
+    (he : cfg.endian ≠ .invalid) (hw : cfg.word ≠ .invalid) (res : Pdu)
+    (hd : (replyData res).length = 2 * items op) :
+    op.decode cfg (.bytes (replyData res)) = some (decodeReply cfg op res) ∧
+    valCount (decodeReply cfg op res) = requestedCount op := by
+  generalize hdd : replyData res = d at hd
+  cases op <;> simp [fn] at hfn <;>
+    simp only [Op.decode, decodeReply, requestedCount, valCount, items, hdd] at hd ⊢
+  case readRegisters a q rt | readRegister a rt =>
+    rw [u16s_eq_wireRegs _ _ (by omega), wireRegs_length]; exact ⟨rfl, by omega⟩
+  case readUint32s a q rt | readUint32 a rt | readFloat32s a q rt | readFloat32 a rt =>
+    rw [u32s_eq_join _ _ he hw _ (by omega), join32_length, wireRegs_length]; exact ⟨rfl, by omega⟩
+  case readUint64s a q rt | readUint64 a rt | readFloat64s a q rt | readFloat64 a rt =>
+    rw [u64s_eq_join _ _ he hw _ (by omega), join64_length, wireRegs_length]; exact ⟨rfl, by omega⟩
+  case readBytes a q rt =>
+    have hlen : q.toNat ≤ d.length := by unfold regsForBytes at hd; omega
+    by_cases hl : cfg.endian = .little
+    · rw [if_pos hl, if_pos hl, swapPairs_eq _ (by omega)]
+      simp only [Option.map_some]
+      rw [take_odd_even q _ (by rw [swapEach_length]; exact hd), List.length_take, swapEach_length]
+      exact ⟨rfl, by omega⟩
+    · rw [if_neg hl, if_neg hl]
+      simp only [Option.map_some]
+      rw [take_odd_even q _ hd, List.length_take]
+      exact ⟨rfl, by omega⟩
+  case readRawBytes a q rt =>
+    have hlen : q.toNat ≤ d.length := by unfold regsForBytes at hd; omega
+    rw [take_odd_even q _ hd, List.length_take]
+    exact ⟨rfl, by omega⟩
+
+theorem byteCounted_length {n : Nat} {pl : Bytes} (h : ByteCounted n pl) : (pl.drop 1).length = n := h.2
+
+/-- L3: decoding the raw result of an accepted payload gives the values of the spec -/
+theorem view_decode {cfg : Cfg} {op : Op} {c : Core} (hv : CoreView cfg op c)
+    (he : cfg.endian ≠ .invalid) (hw : cfg.word ≠ .invalid) (res : Pdu)
+    (hpos : CorePos c res.payload) :
+    op.decode cfg (coreRaw c res.payload) = some (decodeReply cfg op res) ∧
+    valCount (decodeReply cfg op res) = requestedCount op := by
+  cases hv with
+  | bits di q hfn hq =>
+    have hfn' : fn op = .readCoils ∨ fn op = .readDiscreteInputs := by cases di <;> simp [hfn]
+    obtain ⟨h1, h2, h3⟩ := bits_ops (cfg := cfg) hfn'
+    simp only [coreRaw]
+    rw [h1, h2, h3, hq]
+    exact ⟨rfl, bitsOf_length _ _⟩
+  | regs qty rt hfn hrt hq =>
+    subst hq
+    exact regs_ops hfn he hw res hpos.2
+  | coil a v h =>
+    subst h; exact ⟨rfl, rfl⟩
+  | coils a vs h =>
+    subst h; exact ⟨rfl, rfl⟩
+  | reg a v h =>
+    subst h; exact ⟨rfl, rfl⟩
+  | mregs pay hfn hlen =>
+    obtain ⟨h1, h2⟩ := write_ops (cfg := cfg) (op := op) (Or.inr (Or.inr (Or.inr hfn)))
+    simp only [coreRaw]
+    rw [decode_done, h1, h2]
+    exact ⟨rfl, rfl⟩
+
+/-! ### the PDU-level theorems -/
+
+section pdu
+variable {cfg : Cfg} {op : Op} {c : Core} {fc : Byte} {p : Bytes}
+
+theorem sound_pdu (he : cfg.endian ≠ .invalid) (hw : cfg.word ≠ .invalid)
+    (hcore : op.core cfg = some c) (hreq : c.request = .ok (fc, p))
+    {res res' : Pdu} {raw : Raw} {v : Val}
+    (hu : unitCheck cfg.unitId (.ok res) = .ok res')
+    (hval : c.validate fc res' = some (.ok raw)) (hdec : op.decode cfg raw = some v) :
+    PositiveReply cfg op res ∧ v = decodeReply cfg op res ∧ valCount v = requestedCount op := by
+  have hv := core_view hcore
+  have hres : res' = res := by
+    have := unitCheck_ok_inv hu; injection this with this; exact this.symm
+  subst hres
+  obtain ⟨hfc, hpos, hraw⟩ := (validate_ok_iff hreq (view_endianOk hv he) _ _).mp hval
+  have hbit := (fc_facts fc (request_fc hreq)).1
+  have hunit := (unitCheck_pos (u := cfg.unitId) (res := res') (by rw [hfc]; exact hbit)).mp hu
+  obtain ⟨hd, hcnt⟩ := view_decode hv he hw res' hpos
+  rw [hraw, hd] at hdec
+  injection hdec with hdec
+  subst hdec
+  exact ⟨⟨hunit, hfc.trans (view_fc hv hreq), (view_pos hv hreq _).mp hpos⟩, rfl, hcnt⟩
+
+theorem complete_pdu (he : cfg.endian ≠ .invalid) (hw : cfg.word ≠ .invalid)
+    (hcore : op.core cfg = some c) (hreq : c.request = .ok (fc, p))
+    {res : Pdu} (hpos : PositiveReply cfg op res) :
+    unitCheck cfg.unitId (.ok res) = .ok res ∧
+    ∃ raw, c.validate fc res = some (.ok raw) ∧
+      op.decode cfg raw = some (decodeReply cfg op res) := by
+  have hv := core_view hcore
+  obtain ⟨hunit, hfc, hpl⟩ := hpos
+  have hfc' : res.fc = fc := hfc.trans (view_fc hv hreq).symm
+  have hbit := (fc_facts fc (request_fc hreq)).1
+  have hcp := (view_pos hv hreq _).mpr hpl
+  refine ⟨(unitCheck_pos (by rw [hfc']; exact hbit)).mpr hunit, coreRaw c res.payload, ?_, ?_⟩
+  · exact (validate_ok_iff hreq (view_endianOk hv he) _ _).mpr ⟨hfc', hcp, rfl⟩
+  · exact (view_decode hv he hw res hcp).1
+
+theorem exception_pdu (hcore : op.core cfg = some c) (hreq : c.request = .ok (fc, p))
+    {res : Pdu} {code : Byte} (hex : ExceptionReply cfg op res code) :
+    unitCheck cfg.unitId (.ok res) = .ok res ∧
+    c.validate fc res = some (.error (exceptionError code)) := by
+  have hv := core_view hcore
+  obtain ⟨hunit, hfc, hpl⟩ := hex
+  rw [← view_fc hv hreq] at hfc
+  have hbit := (fc_facts fc (request_fc hreq)).2.2
+  exact ⟨unitCheck_exc (by rw [hfc]; exact hbit) hunit, validate_exception hreq res code hfc hpl⟩
+
+end pdu
+/-! ### no panic, for every configuration (valid selectors or not) -/
+
+/-- the kind of raw result a core call can produce -/
+def RawShape : Core → Raw → Prop
+  | .readBools .., raw => ∃ l, raw = .bools l
+  | .readRegs _ qty _, raw => ∃ b, raw = .bytes b ∧ b.length = 2 * qty
+  | _, raw => raw = .done
+
+theorem positive_ok_shape (c : Core) (pl : Bytes) (raw : Raw)
+    (h : c.positive pl = some (.ok raw)) : RawShape c raw := by
+  cases c with
+  | readBools di a q =>
+    simp only [Core.positive] at h
+    generalize (1 + q.toNat / 8 + if q.toNat % 8 ≠ 0 then 1 else 0) = E at h
+    split at h; · exact absurd h protoErr_ne
+    split at h; · exact absurd h protoErr_ne
+    split at h
+    · next l _ => exact ⟨l, (ok_eq_iff.mp h)⟩
+    · cases h
+  | readRegs a qty rt =>
+    simp only [Core.positive] at h
+    split at h; · exact absurd h protoErr_ne
+    split at h; · exact absurd h protoErr_ne
+    next h1 _ =>
+      refine ⟨_, ok_eq_iff.mp h, ?_⟩
+      have h1 := Decidable.not_not.mp h1
+      rw [List.length_drop, h1]; omega
+  | writeCoil a v =>
+    simp only [Core.positive] at h
+    split at h; · exact absurd h protoErr_ne
+    exact ok_eq_iff.mp h
+  | writeCoils a vs =>
+    simp only [Core.positive] at h
+    split at h; · exact absurd h protoErr_ne
+    exact ok_eq_iff.mp h
+  | writeRegs a pay =>
+    simp only [Core.positive] at h
+    split at h; · exact absurd h protoErr_ne
+    exact ok_eq_iff.mp h
+  | writeReg e a v =>
+    simp only [Core.positive] at h
+    split at h; · exact absurd h protoErr_ne
+    split at h; · exact absurd h protoErr_ne
+    split at h
+    · cases h
+    · split at h
+      · exact absurd h protoErr_ne
+      · exact ok_eq_iff.mp h
+
+theorem validate_ok_shape (c : Core) (fc : Byte) (res : Pdu) (raw : Raw)
+    (h : c.validate fc res = some (.ok raw)) : RawShape c raw := by
+  unfold Core.validate at h
+  split at h
+  · exact positive_ok_shape c _ raw h
+  · split at h
+    · split at h <;> simp [protoErr] at h
+    · simp [protoErr] at h
+
+theorem regs_total {cfg : Cfg} {op : Op} (hfn : fn op = .readRegisters) (d : Bytes)
+    (hd : d.length = 2 * items op) : op.decode cfg (.bytes d) ≠ none := by
+  cases op <;> simp [fn] at hfn <;> simp only [Op.decode, items] at hd ⊢
+  case readRegisters a q rt | readRegister a rt =>
+    simp only [ne_eq, Option.map_eq_none_iff, u16s_none_iff]; omega
+  case readUint32s a q rt | readUint32 a rt | readFloat32s a q rt | readFloat32 a rt =>
+    simp only [ne_eq, Option.map_eq_none_iff, u32s_none_iff]; omega
+  case readUint64s a q rt | readUint64 a rt | readFloat64s a q rt | readFloat64 a rt =>
+    simp only [ne_eq, Option.map_eq_none_iff, u64s_none_iff]; omega
+  case readBytes a q rt =>
+    simp only [ne_eq, Option.map_eq_none_iff]
+    split
+    · exact swapPairs_ne_none _ (by omega)
+    · simp
+  case readRawBytes a q rt => simp
+
+theorem decode_total {cfg : Cfg} {op : Op} {c : Core} (hv : CoreView cfg op c) (raw : Raw)
+    (hs : RawShape c raw) : op.decode cfg raw ≠ none := by
+  cases hv with
+  | bits di q hfn hq =>
+    have hfn' : fn op = .readCoils ∨ fn op = .readDiscreteInputs := by cases di <;> simp [hfn]
+    obtain ⟨l, rfl⟩ := hs
+    rw [(bits_ops (cfg := cfg) hfn').1]; simp
+  | regs qty rt hfn hrt hq =>
+    obtain ⟨b, rfl, hb⟩ := hs
+    exact regs_total hfn b (hq ▸ hb)
+  | coil a v h => rw [show raw = .done from hs, decode_done]; simp
+  | coils a vs h => rw [show raw = .done from hs, decode_done]; simp
+  | reg a v h => rw [show raw = .done from hs, decode_done]; simp
+  | mregs pay hfn hlen => rw [show raw = .done from hs, decode_done]; simp
+
+/-! ### (E) the call as a function of what the transport read -/
+
+/-- everything `Op.run` does with the transport's read result -/
+def pduOutcome (cfg : Cfg) (op : Op) (c : Core) (fc : Byte) (r : Except Err Pdu) :
+    Option (Except Err Val) :=
+  match unitCheck cfg.unitId r with
+  | .error err => some (.error err)
+  | .ok res =>
+    match c.validate fc res with
+    | none => none
+    | some (.error err) => some (.error err)
+    | some (.ok raw) => (op.decode cfg raw).map .ok
+
+theorem run_rejected {cfg : Cfg} {op : Op} {c : Core} {err : Err} (st : TState) (arrivals : Bytes)
+    (e : Ending) (hcore : op.core cfg = some c) (hreq : c.request = .error err) :
+    op.run cfg st arrivals e = { written := none, result := some (.error err), state := st } := by
+  simp only [Op.run, hcore, Core.exchange, hreq]
+
+theorem run_accepted {cfg : Cfg} {op : Op} {c : Core} {fc : Byte} {p : Bytes} (st : TState)
+    (arrivals : Bytes) (e : Ending) (hcore : op.core cfg = some c) (hreq : c.request = .ok (fc, p)) :
+    op.run cfg st arrivals e =
+      { written := some (frameFor cfg.kind st ⟨cfg.unitId, fc, p⟩).1,
+        result := pduOutcome cfg op c fc
+          (transportRead cfg.kind (frameFor cfg.kind st ⟨cfg.unitId, fc, p⟩).2 (st.pending ++ arrivals) e).1,
+        state := ⟨(frameFor cfg.kind st ⟨cfg.unitId, fc, p⟩).2,
+          (transportRead cfg.kind (frameFor cfg.kind st ⟨cfg.unitId, fc, p⟩).2 (st.pending ++ arrivals) e).2⟩ } := by
+  simp only [Op.run, hcore, Core.exchange, hreq, pduOutcome]
+  cases unitCheck cfg.unitId _ <;> rfl
+
+theorem pduOutcome_ne_none {cfg : Cfg} {op : Op} {c : Core} (fc : Byte) (r : Except Err Pdu)
+    (hcore : op.core cfg = some c) : pduOutcome cfg op c fc r ≠ none := by
+  unfold pduOutcome
+  split
+  · simp
+  · next res _ =>
+    split
+    · next h => exact absurd h (validate_ne_none c fc res)
+    · simp
+    · next raw h =>
+      have := decode_total (core_view hcore) raw (validate_ok_shape c fc res raw h)
+      simpa using this
+
+theorem run_total (cfg : Cfg) (op : Op) (st : TState) (arrivals : Bytes) (e : Ending) :
+    (op.run cfg st arrivals e).result ≠ none := by
+  cases hcore : op.core cfg with
+  | none => exact absurd hcore (core_ne_none cfg op)
+  | some c =>
+    cases hreq : c.request with
+    | error err => rw [run_rejected st arrivals e hcore hreq]; simp
+    | ok fp =>
+      obtain ⟨fc, p⟩ := fp
+      rw [run_accepted st arrivals e hcore hreq]
+      exact pduOutcome_ne_none fc _ hcore
 
 end Modbus.ClientResp
